@@ -1,5 +1,5 @@
 import PGV.Props.C08
-import PGV.Props.Facts
+import PGV.Props.Facts.Alias
 import PGV.Proofs.Frame
 
 /-!
